@@ -20,7 +20,9 @@
 
 
 // C++ Standard Library includes
+#include <fstream>
 #include <stdexcept>
+#include <string>
 
 
 // project includes
@@ -65,7 +67,23 @@ Counted::Counted( const filename::Definition& fname_def, size_t max_entries,
 /// @since  1.11.0, 05.09.2018
 bool Counted::openCheck()
 {
-   return fileSize() == 0;
+
+   // a new file starts with 0 entries, for an existing file (program start)
+   // the entries that it already contains must be counted
+   mNumberOfEntries = 0;
+
+   if (fileSize() > 0)
+   {
+      std::ifstream  existing( logFileName());
+      std::string    line;
+
+      while (std::getline( existing, line))
+      {
+         ++mNumberOfEntries;
+      } // end while
+   } // end if
+
+   return mNumberOfEntries < mMaxEntries;
 } // Counted::openCheck
 
 
